@@ -297,6 +297,27 @@ static void trace_row(rng & r, std::ofstream & out, long n, long & events) {
     }
 }
 
+static std::vector<int> limbs8(uint64_t v) { std::vector<int> o; for (int k = 0; k < 8; ++k) { o.push_back((int)(v & 0xFF)); v >>= 8; } return o; }
+// row-major fields with more than 2^32 cells (identity-backed: no memory), extents / coordinates / position as 8-bit limbs
+template <std::size_t N>
+static void trace_rowbig(rng & r, std::ofstream & out, long n, long & events) {
+    for (long q = 0; q < n; ++q) {
+        std::vector<uint64_t> ext(N), c(N);
+        int budget = 62;                                   // total bits of the product
+        for (std::size_t k = 0; k < N; ++k) {
+            int bits = (k + 1 == N) ? std::min(budget, 34 + (int)r.below(8)) : std::min(budget - 1, 1 + (int)r.below(62 / (int)N));
+            if (bits < 1) bits = 1;
+            ext[k] = (1ull << bits) + r.below(1ull << bits) / 3 + 1; budget -= bits + 1; if (budget < 1) budget = 1;
+            c[k] = r.below(4) == 0 ? ext[k] - 1 : r.below(ext[k]);
+        }
+        uint64_t idx = index_of<L_strided, N, std::size_t>(ext, c);
+        json je = json::array(), jc = json::array();
+        for (std::size_t k = 0; k < N; ++k) { je.push_back(limbs8(ext[k])); jc.push_back(limbs8(c[k])); }
+        out << json({{"e", "rowbig"}, {"ext", je}, {"c", jc}, {"idx", limbs8(idx)}}).dump() << "\n";
+        ++events;
+    }
+}
+
 template <typename L, std::size_t N>
 static void trace_sized(rng & r, std::ofstream & out, long n, uint64_t maxext, const char * ev, long & events) {
     using In = cv::vector_d<std::size_t, N>;
@@ -385,6 +406,7 @@ int main(int argc, char ** argv) {
         std::ofstream out(argv[6]);
         long events = 0;
         trace_row<1>(r, out, n, events); trace_row<2>(r, out, n, events); trace_row<3>(r, out, n, events); trace_row<4>(r, out, n, events);
+        trace_rowbig<2>(r, out, n / 2 + 1, events); trace_rowbig<3>(r, out, n / 2 + 1, events); trace_rowbig<4>(r, out, n / 4 + 1, events);
         trace_mortonbits<1>(r, out, n, events); trace_mortonbits<2>(r, out, n, events);
         trace_mortonbits<3>(r, out, n, events); trace_mortonbits<4>(r, out, n, events);
         trace_sized<L_morton, 1>(r, out, n / 8 + 1, 3000, "morton", events);
